@@ -189,12 +189,11 @@ def _keys_by_name(b, text, pairs):
 
 
 def _preimage_documented(b, target, pairs):
-    """The hypotheses of `C13_preimage_partial` in the CURRENT order of `b`: partners neighbours,
-    no two keys with the same value, the target independent of every value."""
+    """The hypotheses of `C13_preimage_any_order`: no two keys with the same value, the target
+    independent of every value (nothing about the order: when the partners are not neighbours
+    `preimage` renames, conjoins and quantifies)."""
     vals = [v for _, v in pairs]
     if len(set(vals)) != len(vals):
-        return False
-    if any(abs(b.vars[k] - b.vars[v]) != 1 for k, v in pairs):
         return False
     return not (set(b.support(target)) & set(vals))
 
@@ -204,10 +203,11 @@ def _c09_one(ctx, lines, held, names, label, op, args, mid=0, op_mid=None):
     `mid` is the manager in which reordering is enabled and the result lives;
     `op_mid` the manager the protocol line addresses (differs for `copy`).
 
-    `preimage` assumes that the partners of its renaming are neighbours, and sifting moves single
-    variables: the result must equal the one computed without reordering only when the order in
-    which the manager is left still meets that assumption (C09_preimage_transparent); in every
-    case it must be what `preimage` computes, without reordering, on that final order."""
+    `image` (any use) and `preimage` in its documented use (`C13_preimage_any_order`: no two keys
+    with the same value, target independent of the values) must return the function they return
+    without reordering, whatever sifting does to the partners of the renaming (F4d repaired:
+    separated partners are renamed, conjoined and quantified); in every case the result must be
+    what the same call computes, without reordering, on the order the manager is left in."""
     if op_mid is None:
         op_mid = mid
     ref_s = replay_lines(ctx, lines)
@@ -249,20 +249,15 @@ def _c09_one(ctx, lines, held, names, label, op, args, mid=0, op_mid=None):
             same_expected = True
             if op == 'preimage':
                 same_expected = documented0 and _preimage_documented(b, int(args[1]), rel_pairs)
-                ctx.count('preimage:' + ('partners-still-neighbours' if same_expected
-                                         else 'partners-separated-or-undocumented-use'))
+                adj = all(abs(b.vars[k_] - b.vars[v_]) == 1 for k_, v_ in rel_pairs)
+                ctx.count('preimage:' + ('documented-use' if same_expected else 'undocumented-use')
+                          + (':partners-neighbours' if adj else ':partners-separated'))
             if abs(r) not in b._succ:
                 bad.append('result is not a node of the manager')
                 tags['symptom'] = 'wrong-result'
             elif same_expected and TT(b, names).of(r) != want:
                 bad.append('result denotes another function than with reordering disabled')
                 tags['symptom'] = 'wrong-result'
-            elif op == 'preimage' and documented0 and TT(b, names).of(r) != want:
-                # documented use at the call, but sifting separated the partners of the renaming
-                # before the retry: the retried recursion assumes neighbours (finding F4d)
-                bad.append('preimage denotes another function than with reordering disabled '
-                           '(sifting separated the partners of the renaming)')
-                tags['symptom'] = 'partners-separated-by-sifting'
         tt = TT(b, names)
         for u, t in held_tt.items():
             if abs(u) not in b._succ:
@@ -524,12 +519,18 @@ def check_C13(ctx):
             rtr = bld.build(spk, tr)
             tt = TT(b, allnames)
             fa = rng.randint(0, 1)
-            if not arbitrary:
-                # preimage with a target over the unprimed variables only (documented use)
+            # preimage with a target over the unprimed variables only (documented use), ANY order;
+            # when some partners are not neighbours (rename / conjoin / quantify branch,
+            # `C13_preimage_not_neighbours`) also with an unrestricted target
+            neighbours = all(abs(b.vars[u] - b.vars[p]) == 1 for u, p in pairs)
+            for free_target in ([False] if neighbours else [False, True]):
                 tg = rng.randrange(spk.full + 1)
-                for n in prim:
-                    tg = spk.cof(tg, n, rng.randint(0, 1))
+                if not free_target:
+                    for n in prim:
+                        tg = spk.cof(tg, n, rng.randint(0, 1))
                 rtg = bld.build(spk, tg)
+                ctx.count('preimage:' + ('neighbours' if neighbours else 'not-neighbours')
+                          + (':free-target' if free_target else ''))
                 q = [n for n in prim if rng.random() < 0.8]
                 ren = {u: p for u, p in pairs}
                 ans = s.op(0, 'preimage', rtr, rtg, ','.join(f'n:{u}=n:{p}' for u, p in ren.items()),
@@ -540,7 +541,8 @@ def check_C13(ctx):
                 ctx.evaluations += 1
                 if got is None or tt.of(got) != want:
                     ctx.violation('preimage wrong (several pairs)', dict(
-                        order=order, trans=tr, target=tg, qvars=q, forall=fa, got=ans,
+                        order=order, arbitrary_order=arbitrary, free_target=free_target,
+                        trans=tr, target=tg, qvars=q, forall=fa, got=ans,
                         tags=dict(call='preimage', target_depends_on_pair_and_partner_quantified=False)))
             # image: source over unprimed, quantify all unprimed, rename primed -> unprimed
             so = rng.randrange(spk.full + 1)
@@ -1039,10 +1041,11 @@ F4D_WITNESSES = [
 
 
 def _c09_f4d_witnesses(ctx):
-    """Known finding F4d: `preimage` in its documented use (partners neighbours, target over the
-    unprimed variables) with a transition relation that ties a variable and its partner to
-    variables far apart — sifting then separates the partners, and the retried recursion, which
-    assumes neighbours, denotes another function.  Fixed witnesses, every trigger position."""
+    """The witnesses of the former finding F4d: `preimage` in its documented use (partners
+    neighbours at the call, target over the unprimed variables) with a transition relation that
+    ties a variable and its partner to variables far apart — sifting then separates the partners.
+    Since the repair (rename, conjoin, quantify when the partners are not neighbours) these are
+    ordinary cases: every trigger position must give the function computed without reordering."""
     for order, eqs, tgt in F4D_WITNESSES:
         if ctx.time_left() < 5:
             break
@@ -1068,7 +1071,7 @@ def _c09_f4d_witnesses(ctx):
 
 def _c09_relational_sweeps(ctx):
     """`image` / `preimage` at EVERY trigger position: 1-3 pairs; `rename` and `qvars` given by
-    name and by level; partners adjacent or (image) anywhere; managers padded to 9-12 variables;
+    name and by level; partners adjacent or anywhere; managers padded to 9-12 variables;
     operands are held references of a used manager."""
     rng = ctx.rng
     n_cfg = 12 if ctx.tier == 'quick' else 90
@@ -1120,11 +1123,10 @@ def _c09_relational_sweeps(ctx):
             src = rng.choice(held)
             jobs = [('image', [tr, src, ','.join(f'{key(p[1])}={key(p[0])}' for p in pairs),
                                ','.join(key(p[0]) for p in pairs), fa])]
-            if not arbitrary:
-                tg = tgt if (tgt is not None and rng.random() < 0.7) else rng.choice(held)
-                jobs.append(('preimage', [tr, tg,
-                                          ','.join(f'{key(p[0])}={key(p[1])}' for p in pairs),
-                                          ','.join(key(p[1]) for p in pairs), fa]))
+            tg = tgt if (tgt is not None and rng.random() < 0.7) else rng.choice(held)
+            jobs.append(('preimage', [tr, tg,
+                                      ','.join(f'{key(p[0])}={key(p[1])}' for p in pairs),
+                                      ','.join(key(p[1]) for p in pairs), fa]))
             for label, args in jobs:
                 ctx.count(f'sweep:{label}:{"level" if bylevel else "name"}:'
                           f'{"any-order" if arbitrary else "adjacent"}:'
@@ -1172,6 +1174,12 @@ def _c09_relational_errors(ctx):
             ('image', [tr, src, 'n:xp=n:x', 'n:zz', fa]),                 # invalid qvars
             ('preimage', [tr, src, 'n:x=n:xp', 'l:17', fa]),
             ('preimage', [tr, src, 'n:x=l:9', 'n:xp', fa]),               # value below the bottom
+            # the rename / conjoin / quantify branch (some partners not neighbours) with a value
+            # that is an undeclared name, below the bottom, negative
+            ('preimage', [tr, src, 'n:x=n:zz,n:y=n:xp', 'n:xp', fa]),
+            ('preimage', [tr, src, f'l:{lvl["y"]}=l:9,n:x=n:yp', 'n:yp', fa]),
+            ('preimage', [tr, src, 'n:x=l:-1,n:y=n:xp', 'n:xp', fa]),
+            ('preimage', [tr, src, 'n:x=l:-3', '', fa]),
         ]
         for op, args in jobs:
             ref_s = replay_lines(ctx, lines)
